@@ -129,6 +129,7 @@ def toml_key(n):
 
 
 OLD, NEW, OLD_PEP, NEW_PEP = "v1.2.3-beta", "v1.2.4-beta", "1.2.3b0", "1.2.4b0"
+PINNED = [{"kind": "fake", "seed": 12, "vcs": "git", "cm": "'quoted' -> {new_version} \"x\"", "tm": " {new_version} "}]
 
 
 def run_fake(ctx, case):
@@ -141,9 +142,11 @@ def run_fake(ctx, case):
     # a third of the cases give the templates in the CONFIG file: the OLD/NEW shorthand is a command line
     # feature, a configured template is used verbatim (only the {placeholders} are substituted)
     via_cfg = R.random() < 0.34
+    # templates that begin or end with a quote character or a blank: legal TOML strings (only generated for TOML)
+    edge_ok = R.random() < 0.3
     if via_cfg:
         def cfg_ok(t):
-            return t == t.strip("'\" ") and "\n" not in t and t != ""
+            return (edge_ok or t == t.strip("'\" ")) and "\n" not in t and t != "" and t.strip("'\" ") != ""
         for _ in range(30):
             if cfg_ok(cm) and cfg_ok(tm):
                 break
@@ -151,9 +154,14 @@ def run_fake(ctx, case):
             tm, used_t = gen_template(R)
         else:
             via_cfg = False
-    if via_cfg and R.random() < 0.15:
+    if "cm" in case:
+        via_cfg, cm, tm, used_c, used_t = True, case["cm"], case["tm"], {"edge-quote"}, set()
+    if via_cfg and R.random() < 0.15 and "cm" not in case:
         tm, used_t = "", {"empty-tag-message"}   # documented: an empty tag message gives a lightweight tag
-    ini = via_cfg and R.random() < 0.5 and tm != ""
+    edges = via_cfg and any(t != t.strip("'\" ") for t in (cm, tm))
+    ini = via_cfg and R.random() < 0.5 and tm != "" and not edges
+    if edges:
+        ctx.count("config_templates_with_edge_quotes_or_blanks")
     if ini:
         names = [n for n in names if not any(c in n for c in "=:#;%[]") and n == n.strip() and "  " not in n] or ["plain.txt"]
         ini = not any(t.startswith(("#", ";")) for t in (cm, tm))
@@ -225,12 +233,22 @@ def run_fake(ctx, case):
         ctx.violation("other:commit_calls", f"{len(commits)} commit calls", case=case)
         return
     a = commits[0]["argv"]
+
+    def msg_class(tmpl, got, what):
+        # known mechanism, verified per case: the observed message is the template with its edge quotes/blanks
+        # stripped (config._parse_config strips every string setting for the INI syntax's sake, TOML values too)
+        if via_cfg and tmpl != tmpl.strip("'\" ") and got == expand(tmpl.strip("'\" "), OLD, NEW, OLD_PEP, NEW_PEP, cli=False):
+            return "config_template_edge_quotes_stripped"
+        return f"other:{what}_message_not_verbatim"
+
     if vcs == "git":
         if "--message" not in a or a[a.index("--message") + 1] != want_cm or a.count(want_cm) != 1:
-            ctx.violation("other:commit_message_not_verbatim", f"commit argv {a!r}, expected message {want_cm!r}", case=case)
+            got = a[a.index("--message") + 1] if "--message" in a else None
+            ctx.violation(msg_class(cm, got, "commit"), f"commit argv {a!r}, expected message {want_cm!r}", case=case)
     else:
         if commits[0]["extra"] != want_cm.encode("utf-8"):
-            ctx.violation("other:commit_message_not_verbatim", f"hg log file {commits[0]['extra']!r}, expected {want_cm!r}", case=case)
+            ctx.violation(msg_class(cm, commits[0]["extra"].decode("utf-8", "replace"), "commit"),
+                          f"hg log file {commits[0]['extra']!r}, expected {want_cm!r}", case=case)
         if commits[0]["env"].get("HGENCODING") != "utf-8":
             ctx.violation("other:hgencoding_missing", f"{commits[0]['env']}", case=case)
     tags = calls(evs, "tag")
@@ -242,7 +260,8 @@ def run_fake(ctx, case):
         if "--message" in a:
             ctx.violation("other:tag_message_not_verbatim", f"{a!r}", case=case)
     elif "--message" not in a or a[a.index("--message") + 1] != want_tm:
-        ctx.violation("other:tag_message_not_verbatim", f"tag argv {a!r}, expected message {want_tm!r}", case=case)
+        got = a[a.index("--message") + 1] if "--message" in a else None
+        ctx.violation(msg_class(tm, got, "tag"), f"tag argv {a!r}, expected message {want_tm!r}", case=case)
     if a.count(NEW) != (1 if NEW not in want_tm else 1 + (a[a.index('--message') + 1] == NEW)) and NEW not in a:
         ctx.violation("other:tag_name_wrong", f"tag argv {a!r}, expected name {NEW!r}", case=case)
     name_pos = 2 if (vcs == "git" and "--annotate" in a) else 1
